@@ -2,6 +2,7 @@ package open_game_manager
 
 import (
 	"errors"
+	"sync"
 
 	"github.com/weedbox/syncsaga"
 )
@@ -21,6 +22,7 @@ type openGameManager struct {
 	onOpenGameReady func(state OpenGameState)
 	rg              *syncsaga.ReadyGroup
 	state           *OpenGameState
+	mu              sync.Mutex // serializes Setup / Ready / timeout / completion handling
 }
 
 type OpenGameOption struct {
